@@ -818,6 +818,74 @@ def rule_r7(prog, res) -> None:
         )
 
 
+def rule_r8(prog, res) -> None:
+    """every rank that is addressed takes part: (a) wrappers around the parallel / chunk iterators hand every item
+    through on the root rank AND on the other ranks (a rank whose loop body never runs skips its sends, receives and
+    collectives); (b) a non-root rank always enters the worker loop whose sentinel the dispatcher sends to every rank"""
+    from .. import symx
+
+    # (a) pass-through iterators
+    n = 0
+    for ci in sorted(_passthrough_classes(prog), key=lambda c: c.name):
+        it = ci.methods["__iter__"]
+        init = ci.methods["__init__"]
+        first = init.param_names()[1]
+        attrs = {t.attr for x in walk_no_nested(init.node) if isinstance(x, ast.Assign) and isinstance(x.value, ast.Name) and x.value.id == first for t in x.targets if isinstance(t, ast.Attribute)}
+        res.touch(it)
+        for designated in (True, False):
+            n += 1
+            paths = [p for p in symx.explore(prog, it, oracle=_designated_rank_oracle(designated), inline=symx.inline_private_helpers(prog)) if p.outcome != "raise"]
+            silent = [p for p in paths if not any(ev.kind == "yield" and ev.expr is not None and symx.mentions(ev.expr, lambda y: isinstance(y, ast.Attribute) and y.attr in attrs) for ev in p.events)]
+            who = "the root rank" if designated else "the other ranks"
+            if silent or not paths:
+                res.violation(
+                    "C06.R8",
+                    it,
+                    it.node,
+                    f"{ci.name}.__iter__ yields nothing on {who}: a loop over the wrapped iterator does not run there, so those ranks skip the sends / receives / collectives in its body "
+                    "(with progress=True the job dead-locks or loses the data of those ranks)",
+                    key_extra=f"passthrough-silent-{ci.name}-{'root' if designated else 'workers'}",
+                )
+            else:
+                res.ok("C06.R8", res.site(it, who), f"every path yields the items of self.{sorted(attrs)[0]} on {who}")
+    if n == 0:
+        raise AnalysisError("C06.R8: no pass-through iterator class found")
+    # (b) the worker loop is entered by every non-root rank
+    wt = prog.func("_mpi_worker_task")
+    rt = prog.func("_mpi_root_task")
+    first_pass = [x for x in walk_no_nested(rt.node) if isinstance(x, ast.For) and isinstance(x.iter, ast.Call) and isinstance(x.iter.func, ast.Name) and x.iter.func.id == "range"]
+    every_rank = any(len(x.iter.args) == 2 and unparse(x.iter.args[0]) == "1" and "get_size" in unparse(x.iter.args[1]) or "Get_size" in unparse(x.iter) for x in first_pass)
+    if not every_rank:
+        raise AnalysisError("C06.R8: the dispatcher's first pass over all worker ranks was not recognised")
+    callers = [g for g in _mpi_funcs(prog) if any(wt in prog.resolve_call(g, c).funcs() for c in calls_in(g))]
+    if not callers:
+        raise AnalysisError("C06.R8: no caller of the MPI worker loop found")
+    for g in callers:
+        res.touch(g)
+        paths = [p for p in symx.explore(prog, g, oracle=_designated_rank_oracle(False), inline=None) if p.outcome != "raise"]
+        idle = [p for p in paths if not any(wt in prog.resolve_call(ev.fi, ev.node).funcs() for ev in p.calls())]
+        if idle:
+            cond = idle[0].cond_text()[:100]
+            res.violation(
+                "C06.R8",
+                g,
+                g.node,
+                f"a non-root rank can leave {g.name} without entering the worker loop (when {cond}) although the dispatcher sends a task or the end-of-queue sentinel to every rank 1..size-1: "
+                "the message is never received, it is consumed by the next parallel operation (whose worker quits at once) or blocks the dispatcher",
+                key_extra=f"worker-loop-skipped-{g.name}",
+            )
+        else:
+            res.ok("C06.R8", res.site(g, "worker loop"), "every non-root rank enters the worker loop (the dispatcher addresses every rank)")
+
+
+def rule_r9(prog, res) -> None:
+    """the chunk scattered to the ranks is partitioned (shared with C02.R9)"""
+    from . import c02
+    from .common import shared_rule
+
+    shared_rule(res, c02.rule_r9, "C02", "C02.R9", "C06.R9")
+
+
 RULES = [
     ("C06.R1", rule_r1, QUICK),
     ("C06.R2", rule_r2, QUICK),
@@ -827,4 +895,6 @@ RULES = [
     ("C06.R6", rule_r6, QUICK),
     ("C06.R3b", rule_r3b, QUICK),
     ("C06.R7", rule_r7, QUICK),
+    ("C06.R8", rule_r8, QUICK),
+    ("C06.R9", rule_r9, QUICK),
 ]
